@@ -454,7 +454,7 @@ func runC06(c *mon.Ctx) {
 	})
 
 	nKinds := len(c06allKinds)
-	c.Stratum("exhaustive", c.N(1176, 42000), func(k *mon.Case) {
+	c.Stratum("exhaustive", c.N(1176, 30000), func(k *mon.Case) {
 		r := k.Rng
 		i := k.Index
 		rot := int(c.Seed % 1000)
@@ -488,7 +488,7 @@ func runC06(c *mon.Ctx) {
 			"judged": st.judged, "undefined": st.undefined, "changed": st.changed})
 	})
 
-	c.Stratum("random", c.N(15000, 500000), func(k *mon.Case) {
+	c.Stratum("random", c.N(15000, 350000), func(k *mon.Case) {
 		r := k.Rng
 		sizes := []int{6, 10, 20, 40, 100, 300}
 		n := sizes[r.IntN(len(sizes))]
